@@ -163,7 +163,9 @@ pub fn splits() -> Vec<Cfg> {
         Cfg::split("gcc", 4, "-O2", &["-gno-variable-location-views"]),
         Cfg::split("clang", 4, "-O1", &["-fdebug-types-section"]),
         Cfg::split("clang", 5, "-O1", &["-fdebug-types-section"]),
-        Cfg::split("gcc", 4, "-O1", &["-fdebug-types-section", "-gno-variable-location-views"]),
+        // (gcc -gsplit-dwarf -fdebug-types-section puts every type unit of a .dwo into a COMDAT
+        // section of its own: several `.debug_types.dwo` sections in one file, which this
+        // harness cannot hand to gimli as one section; not part of the corpus)
     ]
 }
 
@@ -353,7 +355,14 @@ impl Obj {
                 continue;
             }
             let d = sec.uncompressed_data().map_err(|e| format!("{name}: {e}"))?;
-            secs.insert(name.to_string(), d.to_vec());
+            if d.is_empty() {
+                continue;
+            }
+            // gcc puts every type unit of a .dwo into a COMDAT section of its own; several
+            // sections of one name cannot be handed to gimli as one section
+            if secs.insert(name.to_string(), d.to_vec()).is_some() {
+                return Err(format!("{}: several sections named {name} (COMDAT groups): not supported by this harness", path.display()));
+            }
         }
         Ok(Obj { secs })
     }
